@@ -46,9 +46,9 @@ def main (args : List String) : IO UInt32 := do
   | _ => IO.eprintln "usage: mdriver <engine> < ops"; return 2
 '''
 open(os.path.join(L, 'Main.lean'), 'w').write(main)
-mods = []
-for f in sorted(glob.glob(os.path.join(L, 'MuscleModel', '**', '*.lean'), recursive=True)):
-    rel = os.path.relpath(f, L)[:-5].replace('/', '.')
-    mods.append(rel)
+# The library root imports the engines only (models + interpreters = what the driver needs).  Property and
+# proof modules are built per property (`lake build MuscleModel.Props.Cxx`): lemma files of different
+# properties live in one namespace per area and are never loaded into one environment together.
+mods = ['MuscleModel.Engines.%s' % b for _, b, _ in engs]
 open(os.path.join(L, 'MuscleModel.lean'), 'w').write(''.join('import %s\n' % m for m in mods))
 print('Main.lean: %d engines; MuscleModel.lean: %d modules' % (len(engs), len(mods)))
